@@ -390,6 +390,12 @@ ROUND4 = {
  "C19": " Sized text (a parameter or a member such as fmt_impl::fmt) is never passed on as data() without size().",
  "C20": " Sized text is never passed on as data() without size() (T.sized-text-complete).",
 }
+ROUND4["C19"] += (" The integer field is laid out as ISO C prescribes, as far as that is a statement about the code's shape "
+                  "(T.field-layout): every path of a conversion that pops its argument reaches the field routine; the padding "
+                  "character is '0' only where no precision is engaged; the sign flags of unsigned conversions fold to false; in "
+                  "print_digits the length compared with the width depends on the sign, and a character that may be '0' is "
+                  "appended as padding only between the sign and the digits. Still not decided: the digits, the float conversions.")
+ROUND4["C20"] += " A '*' width reaches the conversions only after a negative value was re-assigned (B6.star-width-nonneg)."
 for _k, _v in ROUND4.items():
     CLAIMS[_k]["text"] = CLAIMS[_k]["text"] + _v
 ROUND4_TECH = {
